@@ -320,6 +320,9 @@ class AdapterModel:
                         if inner[0] == "agg" and inner[1].endswith("Option::None"):
                             return "None"
                         if inner[0] == "agg" and inner[1].endswith("Option::Some"):
+                            if inner[2] and inner[2][0][0] == "agg" and inner[2][0][1].endswith("Result::Err") and \
+                                    any(c[3] in self.up_sites for c in expr_calls(inner[2][0])):
+                                return "Err"        # Some(Err(e)) built from the upstream poll's own error
                             return "Some"
                         if inner[0] == "agg" and inner[1] == "tuple" and not inner[2]:
                             return "Done"
